@@ -338,10 +338,10 @@ func c06Run(tier string, seed uint64, i int) []h.Result {
 func init() {
 	h.Register(&h.Check{
 		ID: "C06", Level: "exploration",
-		Rule: "random overload families of 1-6 candidates (parameter palette: fixed, variadic, any, named numeric, func types, pointers, slices, maps, generic signatures with any/union/comparable/~ constraints) generated as Go source (functions F__i, methods M__i on value or pointer receivers, " +
+		Rule: "random overload families of 1-6 (one in eight: 10-13, indices a, b, c) candidates, named by suffix (F__k) or bound by explicit lists `const XGoo_F = \"AltF0x,,AltF2x\"` / XGoo_T_M / XGoo_I_M with empty slots; every fourth family instead overloads an operator (V.XGo_<Op>__k for one of 19 binary operators), an assignment operator ((*V).XGo_<Op>Assign__k) and the cast V(args) (V_Cast__k), used with 26 operands; (parameter palette: fixed, variadic, any, named numeric, func types, pointers, slices, maps, generic signatures with any/union/comparable/~ constraints) generated as Go source (functions F__i, methods M__i on value or pointer receivers, " +
 			"interface methods) and imported through the shared importer; 41 argument lists (untyped constants incl. out-of-range ones, typed variables, nil, slices with ..., function literals, generic function values, multiple arguments) x 5 callee forms (package function, method on addressable value, " +
 			"on pointer, on interface value, on composite literal). Model: for each candidate in index order go/types checks the plain call; the first success is the expected choice. Oracles: emitted callee = expected candidate (or rejection when none applies), output type-checks, " +
-			"emitted file is byte-identical to the file emitted for a direct call of the chosen candidate (no residue of rejected candidates in arguments, types, imports), Recorder.Call names the chosen object. non-trivial = call decided; distinct by family signature + call",
+			"emitted file is byte-identical to the file emitted for a direct call of the chosen candidate (no residue of rejected candidates in arguments, types, imports), Recorder.Call names the chosen object, and for `v := call` the reported type of the call and the declared type of v equal go/types' for the emitted (concrete) call. non-trivial = call decided; distinct by family signature + call",
 		Assume: []string{"go/types applicability of each concrete candidate is the reference for 'accepts the arguments under Go's call rules'", "default configuration"},
 		MinNT:  500,
 		Plan:   func(tier string, seed uint64) int { return c06N(tier) },
